@@ -151,6 +151,23 @@ def run(ck, w):
             ck.ok(o)
 
     # ---- 4. termination measure ---------------------------------------------------------------------------------
+    o = ck.ob("C08.3c", "previous_existing_band returns the NEAREST existing band: once band_exists(id) is true that id is returned - no further "
+                        "condition can make the search step past an existing band")
+    be_ = events_of(lib, pb, "archive::Archive::band_exists")
+    t_edges_ = set()
+    for e in be_:
+        t_edges_ |= rules.local_bool_edges(pb, flow.result_carriers(pb, e.dest["l"]) | {x.dest["l"] for x in pb.events
+                                                                                       if x.bb in pb.live and x.name.endswith("Result::<T, E>::unwrap_or") and
+                                                                                       flow.operand_local(x.args[0]) in flow.result_carriers(pb, e.dest["l"])}, True)
+    prevs_ = {e.bb for e in prev} if prev else set()
+    if not be_ or not t_edges_:
+        ck.fail(o, pb.name, "anchor-missing", "band_exists is not branched on in previous_existing_band")
+    else:
+        past = [v for (u, v) in t_edges_ if prevs_ & pb.reachable(v)]
+        if past:
+            ck.fail(o, pb.name, "an existing band can be skipped", "after band_exists(id) == true the search can still step to an earlier id")
+        else:
+            ck.ok(o)
     o = ck.ob("C08.4a", "BandId::previous is None at zero and otherwise exactly one less")
     bp = lib.bodies.get("bandid::BandId::previous")
     if bp is None:
@@ -172,21 +189,24 @@ def run(ck, w):
             ck.fail(o, bp.name, "previous() is not a strict decrement ending at zero", "sub1=%s zero->None=%s" % (sub1, zero_none))
     o = ck.ob("C08.4b", "previous_existing_band: every loop iteration steps BandId::previous and stops when it is None")
     if prev:
-        pbb = prev[0].bb
-        # any cycle in the body must contain the previous() call
+        pbbs = {e.bb for e in prev}
+        # any cycle in the body must contain a previous() call
         cyc_without = False
         yields = {bb for bb in pb.live if pb.blocks[bb]["term"]["tk"] == "yield"}
         for bb in pb.live:
-            if bb == pbb or bb in yields:
+            if bb in pbbs or bb in yields:
                 continue
-            # a cycle that avoids both previous() and the poll/yield loops of awaits
-            if pb.reaches(bb, bb, removed_nodes={pbb} | yields):
+            # a cycle that avoids previous() and the poll/yield loops of awaits
+            if pb.reaches(bb, bb, removed_nodes=pbbs | yields):
                 cyc_without = True
         none_ret = False
-        for (sbb, tested, a, oth) in flow.discriminant_switches(pb, flow.result_carriers(pb, prev[0].dest["l"])):
+        carriers = set()
+        for e in prev:
+            carriers |= flow.result_carriers(pb, e.dest["l"])
+        for (sbb, tested, a, oth) in flow.discriminant_switches(pb, carriers):
             none_t = a.get(0, oth)
-            reach = pb.reachable(none_t, removed_nodes={pbb})
-            if any(r in reach for r in pb.return_blocks()) and pbb not in pb.reachable(none_t):
+            reach = pb.reachable(none_t, removed_nodes=pbbs)
+            if any(r in reach for r in pb.return_blocks()) and not (pbbs & pb.reachable(none_t)):
                 none_ret = True
         if not cyc_without and none_ret:
             ck.ok(o)
